@@ -1286,7 +1286,11 @@ static int callback(
 
   case CALLBACK_MSG_CONSOLE_LOG:
     if (!disable_console_logs)
+    {
+      cli_mutex_lock(&output_mutex);
       _tprintf(_T("%" PF_S "\n"), (char*) message_data);
+      cli_mutex_unlock(&output_mutex);
+    }
     return CALLBACK_CONTINUE;
   }
 
